@@ -104,8 +104,10 @@ h("put_step_n3", "ranger_l::put_step::<S, 3>", ["C02", "C01"], "quick", unwind=9
 h("put_step_n4", "ranger_l::put_step::<S, 4>", ["C02", "C01"], "quick", unwind=9, family="put_step")
 h("put_commute_n4", "ranger_l::put_commute::<S, 4>", ["C02"], "quick", unwind=9, family="put_commute")
 PM_STUBS = DEFAULT_STUBS + ["cteq", "blake3empty"]
-h("pm_item_step_n3_v1", "ranger_l::pm_item_step::<S, 3, 1>", ["C01", "C03", "C12"], "quick", unwind=9, stubs=PM_STUBS, family="pm_item_step", cap=1800, mem_gb=24)
-h("pm_item_step_n4_v2", "ranger_l::pm_item_step::<S, 4, 2>", ["C01", "C03", "C12"], "thorough", unwind=9, stubs=PM_STUBS, family="pm_item_step", cap=3600, mem_gb=24)
+h("pm_item_step_n3_v1_hl", "ranger_l::pm_item_step::<S, 3, 1, 1>", ["C01", "C03", "C12"], "quick", unwind=9, stubs=PM_STUBS, family="pm_item_step", cap=1800, mem_gb=24)
+h("pm_item_step_n3_v2_hl", "ranger_l::pm_item_step::<S, 3, 2, 1>", ["C01", "C03", "C12"], "quick", unwind=9, stubs=PM_STUBS, family="pm_item_step", cap=1800, mem_gb=24)
+h("pm_item_step_n3_v1", "ranger_l::pm_item_step::<S, 3, 1, 2>", ["C01", "C03", "C12"], "thorough", unwind=9, stubs=PM_STUBS, family="pm_item_step", cap=5400, mem_gb=40)
+h("pm_item_step_n4_v2", "ranger_l::pm_item_step::<S, 4, 2, 2>", ["C01", "C03", "C12"], "off_generated", unwind=9, stubs=PM_STUBS, family="pm_item_step", cap=5400, mem_gb=40)
 h("pm_init_and_silence_n2", "ranger_l::pm_init_and_silence::<S, 2>", ["C01"], "quick", unwind=9, unwindset={r"BitXorAssign>::bitxor_assign\.0": 34, r"^memcmp\.0$": 34}, stubs=PM_STUBS, family="pm_init_and_silence", cap=1800, mem_gb=24)
 h("put_commute_n5", "ranger_l::put_commute::<S, 5>", ["C02"], "thorough", unwind=9, family="put_commute")
 
@@ -158,7 +160,7 @@ h("c11_scheduler_k4", "engine_state::c11_scheduler::<S, 4>", ["C11"], "thorough"
 K_STUBS = DEFAULT_STUBS + ["cteq", "fmt"]
 for f1, f2, k, tier in [(1, 0, 2, "quick"), (2, 1, 2, "quick"), (1, 2, 3, "thorough"), (0, 0, 0, "quick")]:
     h("policy_matches_%d_%d_%d" % (f1, f2, k), "kernels::policy_matches::<S, %d, %d, %d>" % (f1, f2, k), ["C15", "C12"], tier,
-      unwind=4, unwindset={r"^memcmp\.0$": 34}, stubs=DEFAULT_STUBS + ["cteq"], family="policy_matches")
+      unwind=4, unwindset={r"^memcmp\.0$": 5}, stubs=DEFAULT_STUBS + ["cteq"], family="policy_matches")
 for f, tier in [(0, "thorough"), (1, "thorough"), (2, "thorough")]:
     h("filter_text_roundtrip_%d" % f, "kernels::filter_text_roundtrip::<S, %d>" % f, ["C15", "C09"], tier,
       unwind=16, stubs=DEFAULT_STUBS, family="filter_text_roundtrip", cap=1200)
@@ -213,10 +215,13 @@ h("e2_heads_after_put", "store_fs::e2_heads_after_put::<S>", ["C13"], "quick", u
 for ff in (False, True):
     h("e2_remove_replica_%d" % ff, "store_fs::e2_remove_replica::<S, %s>" % str(ff).lower(), ["C16"], "quick", unwind=6, unwindset=UW_E2,
       stubs=E2_STUBS, family="e2_remove_replica", mem_gb=24, cap=1800)
+for g, tier in [(0, "quick"), (1, "quick"), (2, "thorough"), (3, "thorough")]:
+    h("selector_groups_%d" % g, "store_fs::selector_groups::<S, %d>" % g, ["C05"], tier, unwind=7, unwindset={r"^memcmp\.0$": 36},
+      stubs=DEFAULT_STUBS + ["cteq"], family="selector_groups", mem_gb=24, cap=1500)
 # parents()/get_exact() over a harness-defined records table (E1; Kani only)
-for p1, p2, tier in [(1, 0, "quick"), (1, 5, "quick"), (0, 4, "quick"), (5, 1, "thorough")]:
+for p1, p2, tier in [(1, 0, "quick"), (0, 4, "quick"), (1, 5, "thorough"), (5, 1, "thorough")]:
     h("parents_law_%d_%d" % (p1, p2), "store_fs::parents_law::<S, %d, %d>" % (p1, p2), ["C02", "C08"], tier, unwind=6,
-      unwindset={r"^memcmp\.0$": 36}, stubs=DEFAULT_STUBS + ["cteq"], family="parents_law", mem_gb=24, cap=1500, kani_only=True, witness="d1")
+      unwindset={r"^memcmp\.0$": 36, r"swap_nonoverlapping": 40}, stubs=DEFAULT_STUBS + ["cteq"], family="parents_law", mem_gb=40, cap=1800, kani_only=True, witness="d1")
 
 COMMON_ASSUMPTIONS = [
     "bytes::Bytes drop/clone replaced by no-op/deep copy (allocation lifetime abstracted; memory safety of `bytes` not claimed)",
